@@ -121,6 +121,12 @@ func runFutureScenario(sc *futScenario, schedule []futStep, seed int64) *futRun 
 		}), vivid.WithActorName("fwd-"+name))
 		fwdRefs[name] = r
 	}
+	// a forwarder nobody ever pipes to: it must receive nothing
+	bystander, _ := sys.ActorOf(vivid.ActorFN(func(ctx vivid.ActorContext) {
+		if pr, ok := ctx.Message().(*vivid.PipeResult); ok {
+			ev(map[string]any{"e": "Fwd", "a": "bystander", "s": futValueName(pr.Message, pr.Error)})
+		}
+	}), vivid.WithActorName("fwd-bystander"))
 	for i := 0; i < 2000 && askCtx.Load() == nil; i++ {
 		time.Sleep(100 * time.Microsecond)
 	}
@@ -215,7 +221,23 @@ func runFutureScenario(sc *futScenario, schedule []futStep, seed int64) *futRun 
 		name := p
 		start(name, func() {
 			ev(map[string]any{"e": "PipeCall", "a": name})
-			if err := theFuture.(interface{ PipeTo(vivid.ActorRefs) error }).PipeTo(vivid.ActorRefs{fwdRefs[name]}); err == nil {
+			// how the caller hands over its list: a fresh one, one that names the forwarder twice, one it re-uses for
+			// something else as soon as PipeTo has returned, one with spare capacity
+			var list vivid.ActorRefs
+			mode := int(seed+int64(len(name))+int64(name[len(name)-1])) % 4
+			switch mode {
+			case 1:
+				list = vivid.ActorRefs{fwdRefs[name], fwdRefs[name]}
+			case 3:
+				list = make(vivid.ActorRefs, 1, 4)
+				list[0] = fwdRefs[name]
+			default:
+				list = vivid.ActorRefs{fwdRefs[name]}
+			}
+			if err := theFuture.(interface{ PipeTo(vivid.ActorRefs) error }).PipeTo(list); err == nil {
+				if mode == 2 && bystander != nil {
+					list[0] = bystander // the caller's slice is the caller's again
+				}
 				ev(map[string]any{"e": "PipeRet", "a": name})
 			}
 		})
